@@ -89,11 +89,128 @@ func (c *Ctx) Txn() *txnAnchors {
 		a.missing = append(a.missing, "oracle.newCommitTs with results (uint64, bool)")
 	}
 	a.fDoneRead = p.Field("", "Txn", "doneRead") // optional: any boolean flag of Txn may make doneRead idempotent
-	fd(&a.fCtTs, "", "committedTxn", "ts")
-	fd(&a.fCtFp, "", "committedTxn", "writesFp")
+	// the record of a committed transaction: its commit timestamp and the fingerprints it wrote - by name, or (renamed)
+	// the one uint64 field and the one map field of the element type of oracle.committedTxns
+	a.fCtTs, a.fCtFp = p.Field("", "committedTxn", "ts"), p.Field("", "committedTxn", "writesFp")
+	if (a.fCtTs == nil || a.fCtFp == nil) && a.fCommitted != nil {
+		if sl, ok := a.fCommitted.Type().Underlying().(*types.Slice); ok {
+			if st, ok := sl.Elem().Underlying().(*types.Struct); ok {
+				var tsF, fpF []*types.Var
+				for i := 0; i < st.NumFields(); i++ {
+					switch ft := st.Field(i).Type().Underlying().(type) {
+					case *types.Basic:
+						if ft.Kind() == types.Uint64 {
+							tsF = append(tsF, st.Field(i))
+						}
+					case *types.Map:
+						fpF = append(fpF, st.Field(i))
+					}
+				}
+				if len(tsF) == 1 && len(fpF) == 1 {
+					a.fCtTs, a.fCtFp = tsF[0], fpF[0]
+				}
+			}
+		}
+	}
+	if a.fCtTs == nil {
+		a.missing = append(a.missing, "committedTxn.ts")
+	}
+	if a.fCtFp == nil {
+		a.missing = append(a.missing, "committedTxn.writesFp")
+	}
 	fd(&a.fMemtable, "", "DB", "memtable")
 	c.memo["txn"] = a
 	return a
+}
+
+// deleteFuncDrop: the committed list is cleaned with slices.DeleteFunc(list, func(rec) bool { return cond }) - the call
+// and the condition under which a record is dropped, with the variables the closure captured replaced by what the
+// enclosing function stored in them; ok is false when there is no such call or the predicate is not one comparison.
+func (a *txnAnchors) deleteFuncDrop(f *ssa.Function) (call *ssa.Call, drop Cmp, ok bool) {
+	p := a.p
+	eachInstr(f, func(ins ssa.Instruction) {
+		cl, isCall := ins.(*ssa.Call)
+		if !isCall || call != nil {
+			return
+		}
+		obj := p.CalleeObj(cl)
+		if obj == nil || !funcIs(obj, "slices", "", "DeleteFunc") || len(cl.Call.Args) != 2 {
+			return
+		}
+		if fv, _ := loadedField(cl.Call.Args[0]); fv != a.fCommitted {
+			return
+		}
+		var pred *ssa.Function
+		var mc *ssa.MakeClosure
+		switch x := cl.Call.Args[1].(type) {
+		case *ssa.MakeClosure:
+			mc = x
+			pred, _ = x.Fn.(*ssa.Function)
+		case *ssa.Function:
+			pred = x
+		}
+		if pred == nil || len(pred.Params) != 1 {
+			return
+		}
+		cases := returnCases(pred)
+		if len(cases) != 1 || len(cases[0].Vals) != 1 {
+			return
+		}
+		bo, isBo := cases[0].Vals[0].(*ssa.BinOp)
+		if !isBo {
+			return
+		}
+		cm := canonCond(bo, true)
+		if cm.Y == nil {
+			return
+		}
+		resolve := func(v ssa.Value) ssa.Value {
+			u, isLd := stripValue(v).(*ssa.UnOp)
+			if !isLd || u.Op != token.MUL || mc == nil {
+				return v
+			}
+			fv, isFV := u.X.(*ssa.FreeVar)
+			if !isFV {
+				return v
+			}
+			for i, q := range pred.FreeVars {
+				if q == fv && i < len(mc.Bindings) {
+					return singleStore(mc.Bindings[i])
+				}
+			}
+			return v
+		}
+		cm.X, cm.Y = resolve(cm.X), resolve(cm.Y)
+		call, drop, ok = cl, cm, true
+	})
+	return
+}
+
+// dropsAtOrBelowWatermark: the comparison says "the record's commit timestamp is at or below readMark.DoneUntil()".
+func (a *txnAnchors) dropsAtOrBelowWatermark(cm Cmp) bool {
+	p := a.p
+	isTs := func(v ssa.Value) bool {
+		v = stripValue(v)
+		if fv, _ := loadedField(v); fv == a.fCtTs {
+			return true
+		}
+		if fx, ok := v.(*ssa.Field); ok {
+			return fx.X.Type().Underlying().(*types.Struct).Field(fx.Field) == a.fCtTs
+		}
+		return false
+	}
+	isWm := func(v ssa.Value) bool {
+		return p.dependsOn(v, func(x ssa.Value) bool {
+			call, ok := x.(*ssa.Call)
+			return ok && markCalls(p, a.fReadMark, "DoneUntil")(call)
+		})
+	}
+	for _, c := range []Cmp{cm, cm.Flip()} {
+		if c.Y != nil && isTs(c.X) && isWm(c.Y) && !isWm(c.X) && (c.Op == "<=" || c.Op == "<") {
+			return true
+		}
+	}
+	return false
 }
 
 // keepsRecord: the instruction keeps a record of the committed-transaction list during the clean-up - an append to the
@@ -537,7 +654,7 @@ func runSnapCommit(c *Ctx, r *RuleRun) {
 		if ok {
 			k, _ = constInt(bo.Y)
 		}
-		r.Check(ok && bo.Op == token.ADD && isLoadOfField(bo.X, a.fNextTs) && k == 1, fn, "nextTs = ts+1", p.Pos(instrPos(st)), "increment of the value handed out", "nextTs is not advanced to exactly ts+1")
+		r.Check(ok && bo.Op == token.ADD && isLoadOfField(cellValue(bo.X), a.fNextTs) && k == 1, fn, "nextTs = ts+1", p.Pos(instrPos(st)), "increment of the value handed out", "nextTs is not advanced to exactly ts+1")
 		_, held := la.Must[st]["oracle.Mutex"]
 		r.Check(held, fn, "nextTs store under oracle.Mutex", p.Pos(instrPos(st)), "under oracle.Mutex", "nextTs is stored without oracle.Mutex")
 	}
@@ -557,6 +674,19 @@ func runSnapCommit(c *Ctx, r *RuleRun) {
 			r.Check(cellValue(retOperand(ret, 0)) == ts, fn, "returns ts", p.Pos(instrPos(ret)), "returns the allocated timestamp", "newCommitTs returns a timestamp other than the one it began on commitMark and recorded")
 		}
 	})
+	if f == top {
+		// one return for both answers (named results, `if !conflict { ts = … }; return`): on the way that assigned the
+		// timestamp it is the allocated one, on the other way nothing was assigned
+		for _, rc := range returnCases(f) {
+			if len(rc.Vals) != 2 || retBool(rc.Ret, 1, false) || retBool(rc.Ret, 1, true) {
+				continue
+			}
+			if rc.Zero != nil {
+				continue
+			}
+			r.Check(cellValue(rc.Vals[0]) == ts, fn, "returns ts", p.Pos(instrPos(rc.At)), "returns the allocated timestamp", "newCommitTs returns a timestamp other than the one it began on commitMark and recorded")
+		}
+	}
 	if f != top {
 		// newCommitTs hands on what the allocating helper returned
 		fromHelper := func(v ssa.Value) bool {
@@ -990,7 +1120,8 @@ func runSerTs(c *Ctx, r *RuleRun) {
 			if ok {
 				k, _ = constInt(bo.Y)
 			}
-			inc := ok && bo.Op == token.ADD && isLoadOfField(bo.X, a.fNextTs) && k == 1
+			// (`ts = o.nextTs; o.nextTs = ts + 1` with a named result: ts lives in a cell when the function defers)
+			inc := ok && bo.Op == token.ADD && isLoadOfField(cellValue(bo.X), a.fNextTs) && k == 1
 			_, held := la.Must[st]["oracle.Mutex"]
 			r.Check(inc && held, fn, "store nextTs", p.Pos(instrPos(st)), "nextTs+1 under oracle.Mutex", "nextTs is stored with something other than nextTs+1, or without oracle.Mutex: timestamps can repeat or go backwards")
 		}
@@ -1221,6 +1352,32 @@ func runConfOrder(c *Ctx, r *RuleRun) {
 		} else {
 			isBegin := func(i ssa.Instruction) bool { return !steps[i] && mustBegin.Instr(i) }
 			q := PathQuery{P: p, Fn: f, Avoid: isBegin, Target: func(i ssa.Instruction) bool { return i == ins }}
+			// one return for both answers (`conflict = o.hasConflict(txn); if !conflict { … }; return`): what is returned
+			// as "refused" is the very result of hasConflict, so the ways on which it is true are the refusals - they
+			// are excluded here and must not have passed an effect
+			hcSame := map[ssa.Value]bool{}
+			for _, x := range cellAliases(hc[0]) {
+				hcSame[x] = true
+			}
+			if rv := cellValue(retOperand(ret, 1)); hcSame[rv] {
+				q.EdgeOK = func(b *ssa.BasicBlock, i int) bool {
+					iff, ok := b.Instrs[len(b.Instrs)-1].(*ssa.If)
+					if !ok {
+						return true
+					}
+					cm := canonCond(iff.Cond, i == 0)
+					return !(cm.Y == nil && cm.Op == "true" && hcSame[cm.X])
+				}
+				free := true
+				for _, e := range effects {
+					if !boolFactIs(e, func(v ssa.Value) bool { return hcSame[v] }, false) {
+						free = false
+					}
+				}
+				r.Check(free, fn, "refusal is effect-free", p.Pos(instrPos(ret)), "timestamp, record and commitMark.Begin only where hasConflict() was false",
+					"a refused transaction has already advanced nextTs, recorded itself or begun on commitMark: a Begin without Done blocks every later reader")
+				r.Hold(fn, "refusal iff hasConflict", p.Pos(instrPos(ret)), "the refusal returned is the result of hasConflict() itself")
+			}
 			r.Check(q.FindPath() == nil, fn, "acceptance begins on commitMark", p.Pos(instrPos(ret)), "every accepting return is preceded by commitMark.Begin",
 				"a timestamp can be handed out without commitMark.Begin: readers do not wait for this commit to be applied")
 		}
@@ -1314,6 +1471,17 @@ func runConfWindow(c *Ctx, r *RuleRun) {
 		if u, ok := b.(*ssa.UnOp); ok && u.Op == token.MUL && u.X == a {
 			return true
 		}
+		// the same element addressed twice (go/ssa does not share the two `txns[i]` of `txns[i].ts … txns[i].writesFp`)
+		if ia, ok := a.(*ssa.IndexAddr); ok {
+			if ib, ok := b.(*ssa.IndexAddr); ok && ia.Index == ib.Index {
+				if ia.X == ib.X {
+					return true
+				}
+				fa, ba := loadedField(ia.X)
+				fb, bb := loadedField(ib.X)
+				return fa != nil && fa == fb && ba == bb
+			}
+		}
 		return false
 	}
 	// lookups in ct.writesFp, in hasConflict itself or in a helper it hands the committed record to
@@ -1385,6 +1553,37 @@ func runConfWindow(c *Ctx, r *RuleRun) {
 				}
 				return nil
 			})
+			// the helper is handed the record's fingerprint set itself: writesAnyOf(ct.writesFp, txn.readsFp)
+			if call.Call.IsInvoke() || len(h.Blocks) == 0 {
+				continue
+			}
+			for i, q := range h.Params {
+				if i >= len(call.Call.Args) {
+					break
+				}
+				rec := fieldBase(call.Call.Args[i], a.fCtFp)
+				if rec == nil {
+					continue
+				}
+				looks := false
+				eachInstr(h, func(i2 ssa.Instruction) {
+					if lk, ok := i2.(*ssa.Lookup); ok && lk.X == ssa.Value(q) {
+						looks = true
+					}
+				})
+				if !looks {
+					continue
+				}
+				n++
+				g := hasFact(call, func(cm Cmp) bool {
+					if cm.Op != ">" || cm.Y == nil || !isLoadOfField(cm.Y, a.fReadTs) {
+						return false
+					}
+					return sameRecord(fieldBase(cm.X, a.fCtTs), rec)
+				})
+				r.Check(g, fn, "compare only with commits after the snapshot", p.Pos(instrPos(call)), "fingerprints are compared only when ct.ts > txn.readTs",
+					"fingerprints are compared for a window other than ct.ts > txn.readTs: commits the transaction could see cause refusals, or commits it could not see are ignored")
+			}
 		}
 	})
 	if n == 0 {
@@ -1421,6 +1620,13 @@ func runConfWindow(c *Ctx, r *RuleRun) {
 		r.Check(g, cfn, "keep commits above the read watermark", p.Pos(instrPos(call)), "kept when ts > readMark.DoneUntil",
 			"committed transactions are not kept exactly when their timestamp is above readMark.DoneUntil: an open transaction can miss a conflict")
 	})
+	if m == 0 {
+		if call, drop, ok := a.deleteFuncDrop(cu); ok {
+			m++
+			r.Check(a.dropsAtOrBelowWatermark(drop), cfn, "keep commits above the read watermark", p.Pos(instrPos(call)), "slices.DeleteFunc drops exactly the records with ts <= readMark.DoneUntil",
+				"committed transactions are not kept exactly when their timestamp is above readMark.DoneUntil: an open transaction can miss a conflict")
+		}
+	}
 	if m == 0 {
 		r.Undecided(cfn, "keep loop", p.Pos(cu.Pos()), "no append in a loop found in cleanUpCommittedTxns")
 	}
@@ -1696,7 +1902,21 @@ func runTraceMisuse(c *Ctx, r *RuleRun) {
 						if isErrRet(sb.Instrs[0]) {
 							return true
 						}
-						q := PathQuery{P: p, Fn: f, Starts: []ssa.Instruction{iff}, EdgeOK: func(bb *ssa.BasicBlock, i int) bool { return bb != b || i == si }, Target: isErrRet,
+						q := PathQuery{P: p, Fn: f, Starts: []ssa.Instruction{iff}, Target: isErrRet,
+							EdgeOK: func(bb *ssa.BasicBlock, i int) bool {
+								if bb == b {
+									return i == si
+								}
+								// the same check written a second way (`len(k) == 0 || k == ""`): the edge on which that
+								// one fails is a failing side too
+								if if2, ok := bb.Instrs[len(bb.Instrs)-1].(*ssa.If); ok && len(bb.Succs) == 2 {
+									c2 := canonCond(if2.Cond, i == 0)
+									if g.failed(c2) || g.failed(c2.Flip()) {
+										return false
+									}
+								}
+								return true
+							},
 							Avoid: func(i ssa.Instruction) bool { return i == ssa.Instruction(iff) }}
 						return q.FindPath() != nil
 					}
